@@ -293,6 +293,7 @@ package xmpp
 //@ guarded xmpp.Router.IQResultRoutes by IQResultRouteLock [C07.table] invariant pendingWf($o)
 //@ pred tableQuiet() := count(MapSet_IQResultRoutes) == old(count(MapSet_IQResultRoutes)) && count(MapDel_IQResultRoutes) == old(count(MapDel_IQResultRoutes))
 //@ pred lockFree(r) := !locked(addr(r.IQResultRouteLock)) && rlocked(addr(r.IQResultRouteLock)) == 0
+//@ pred isIQResponse(p) := typeof(p) == *stanza.IQ && (p.(*stanza.IQ).Type == "result" || p.(*stanza.IQ).Type == "error")
 //@ pred isIQRequest(p) := typeof(p) == *stanza.IQ && (p.(*stanza.IQ).Type == "get" || p.(*stanza.IQ).Type == "set")
 // A packet goes to the ordinary routes unless it is an acknowledgement or this activation found - and removed - a
 // pending request with its id ("pending" can only mean: found in the table inside the critical section).
@@ -333,12 +334,13 @@ package xmpp
 //@   ensures [C06.once.answer] typeof(p) == stanza.SMAnswer && !old(noRoute(r, p)) ==> count(HandlePacket) == old(count(HandlePacket)) + 1 && last(HandlePacket, 1) == s && last(HandlePacket, 2) == p && exists(i, 0, old(len(r.routes)), old(firstAt(r, p, i)) && last(HandlePacket, 0) == old(r.routes[i].handler))
 //@   ensures [C06.quiet.answer] typeof(p) == stanza.SMAnswer && old(noRoute(r, p)) ==> count(HandlePacket) == old(count(HandlePacket))
 //@   ensures [C10.route.ack] (typeof(p) == stanza.SMAnswer && typeof(s) == *Client) ==> count(AckProcessed) == old(count(AckProcessed)) + 1 && last(AckProcessed, 1) == s.(*Client).Session.SMState.UnAckQueue
+//@   ensures [C06.request.plain,C07.request.plain] old(isIQRequest(p)) ==> count(MapGet_IQResultRoutes) == old(count(MapGet_IQResultRoutes)) && count(MapDel_IQResultRoutes) == old(count(MapDel_IQResultRoutes)) && newSends() == 0
 //@   ensures [C06.quiet] plainPacket(p) && old(noRoute(r, p)) && !old(isIQRequest(p)) ==> count(HandlePacket) == old(count(HandlePacket)) && count(Send) == old(count(Send)) && count(SendRaw) == old(count(SendRaw))
 //@   requires wfQueue(senderQueue(s))
 //@   ensures wfQueue(senderQueue(s)) && backingOK(senderQueue(s)) && r.IQResultRoutes == old(r.IQResultRoutes)
 //@   requires r.IQResultRoutes != nil && lockFree(r)
-//@   ensures [C07.route.lookup]    typeof(p) != *stanza.IQ ==> count(MapGet_IQResultRoutes) == old(count(MapGet_IQResultRoutes)) && tableQuiet() && newSends() == 0 && count(Close) == old(count(Close))
-//@   ensures [C07.route.found]     typeof(p) == *stanza.IQ ==> count(MapGet_IQResultRoutes) == old(count(MapGet_IQResultRoutes)) + 1 && last(MapGet_IQResultRoutes, 0) == r && last(MapGet_IQResultRoutes, 1) == old(p.(*stanza.IQ).Id) && count(MapSet_IQResultRoutes) == old(count(MapSet_IQResultRoutes)) && count(MapDel_IQResultRoutes) - old(count(MapDel_IQResultRoutes)) == ite(last(MapGet_IQResultRoutes, 2), 1, 0)
+//@   ensures [C07.route.lookup]    !old(isIQResponse(p)) ==> count(MapGet_IQResultRoutes) == old(count(MapGet_IQResultRoutes)) && tableQuiet() && newSends() == 0 && count(Close) == old(count(Close))
+//@   ensures [C07.route.found]     old(isIQResponse(p)) ==> count(MapGet_IQResultRoutes) == old(count(MapGet_IQResultRoutes)) + 1 && last(MapGet_IQResultRoutes, 0) == r && last(MapGet_IQResultRoutes, 1) == old(p.(*stanza.IQ).Id) && count(MapSet_IQResultRoutes) == old(count(MapSet_IQResultRoutes)) && count(MapDel_IQResultRoutes) - old(count(MapDel_IQResultRoutes)) == ite(last(MapGet_IQResultRoutes, 2), 1, 0)
 //@   ensures [C07.route.atomic]    count(MapDel_IQResultRoutes) > old(count(MapDel_IQResultRoutes)) ==> last(MapDel_IQResultRoutes, 0) == r && last(MapDel_IQResultRoutes, 1) == old(p.(*stanza.IQ).Id) && last(MapDel_IQResultRoutes, 2) && last(MapDel_IQResultRoutes, 3) == last(MapGet_IQResultRoutes, 3) && last(MapDel_IQResultRoutes, 3) != nil
 //@   ensures [C07.route.deliver]   newSends() == count(MapDel_IQResultRoutes) - old(count(MapDel_IQResultRoutes)) && (newSends() == 1 ==> last(ChanSend, 0) == last(MapDel_IQResultRoutes, 3).result && last(ChanSend_IQ, 0) == last(ChanSend, 0) && last(ChanSend_IQ, 1) == old(*p.(*stanza.IQ)))
 //@   ensures [C07.route.close]     count(Close) - old(count(Close)) == newSends() && (newSends() == 1 ==> last(Close, 0) == last(ChanSend, 0) && atlast(ChanSend) < atlast(Close))
